@@ -25,10 +25,12 @@ CONSTANTS
   CtcMinFeatures,
   CtcArith,   \* BOOLEAN: also comparison / arithmetic / aggregate constraints
   Fmt,        \* "" or a format: emit only models inside that format's fragment
-  MaxLevel    \* bound on behaviour length (simulation / safety net)
+  MaxLevel,   \* bound on behaviour length (safety net)
+  Walks,      \* 0: exhaustive exploration; n > 0: n seeded random walks ("random larger ones")
+  Seed        \* seed of the walks (VERIF_SEED)
 
-VARIABLES model, hist, stage, pos
-vars == <<model, hist, stage, pos>>
+VARIABLES model, hist, stage, pos, walk
+vars == <<model, hist, stage, pos, walk>>
 
 FName(i) == "f" \o ToString(i)
 NF       == Len(model.feats)
@@ -36,6 +38,7 @@ NF       == Len(model.feats)
 Init == /\ model = NewModelF(FName(1))
         /\ hist  = <<[a |-> "NewModel", root |-> FName(1)]>>
         /\ stage = 0 /\ pos = 1
+        /\ walk \in (IF Walks = 0 THEN {0} ELSE 1..Walks)
 
 CardChoices(k) ==
   {<<lo, hi>> \in (0..k) \X (MinHi..k) : lo <= hi}
@@ -80,7 +83,7 @@ AddConstraint(t) ==
 \* constraints are added only to models with at least CtcMinFeatures features
 CtcReady == Len(model.feats) >= CtcMinFeatures
 
-Next ==
+Step ==
   \/ \E o \in 1..N, k \in 1..MaxKids : \E c \in CardChoices(k) : AddRelation(o, k, c[1], c[2])
   \/ \E i \in 1..N : SetAbstract(i)
   \/ \E i \in 1..N, t \in Types : SetType(i, t)
@@ -90,6 +93,44 @@ Next ==
      /\ \E t \in TreesOver(Names(model), CtcBinOps, CtcDepth)
                  \cup (IF CtcArith THEN ArithTrees(Names(model)) ELSE {}) : AddConstraint(t)
 
+\* Random larger models without -simulate (which would evaluate - and print - every sibling):
+\* each walk takes ONE seeded random step per state, so a walk is a single behaviour and every
+\* state on it is a model.  A step whose random parameters are not enabled ends the walk.
+MinI(a, b) == IF a < b THEN a ELSE b
+Later(s) == IF stage < s THEN 1..NF ELSE IF stage = s THEN {i \in 1..NF : i > pos} ELSE {}
+\* A deterministic pseudo-random choice (TLC's RandomElement is not reproducible under -seed in
+\* model-checking mode): a hash of (Seed, walk, level, salt) indexes the set in TLC's own order.
+\* All intermediate products stay below 2^31.
+HM == 46337
+Mix(x, y) == ((x % HM) * 263 + (y % HM) * 71 + 12345) % HM
+Hash(salt) == Mix(Mix(Mix(Mix(Seed, walk), TLCGet("level")), salt), Len(hist) * 7 + NF)
+PickS(S, salt) == LET q == SetToSeq(S) IN q[(Hash(salt) % Len(q)) + 1]
+AttrCodes == {c \in (1..NF) \X DOMAIN AttrNames : stage < 4 \/ c[1] * 10 + c[2] > pos}
+KindEnabled(kd) ==
+  CASE kd = "abs"   -> Later(1) # {}
+    [] kd = "type"  -> Later(2) # {} /\ Types # {}
+    [] kd = "fcard" -> Later(3) # {} /\ FCards # {}
+    [] kd = "attr"  -> stage <= 4 /\ AttrCodes # {} /\ AttrVals # {}
+    [] kd = "ctc"   -> Len(model.ctcs) < MaxCtc /\ CtcReady
+    [] OTHER -> FALSE
+RandomStep ==
+  LET kinds == {kd \in Axes : KindEnabled(kd)}
+      grow  == stage = 0 /\ NF < N
+  IN
+  \E r \in {PickS(1..100, 1)} :
+      IF grow /\ (r <= 70 \/ kinds = {})
+      THEN \E o \in {PickS(pos..NF, 2)}, k \in {PickS(1..MinI(MaxKids, N - NF), 3)} :
+              \E c \in {PickS(CardChoices(k), 4)} : AddRelation(o, k, c[1], c[2])
+      ELSE kinds # {} /\ \E kd \in {PickS(kinds, 5)} :
+             CASE kd = "abs"   -> \E i \in {PickS(Later(1), 6)} : SetAbstract(i)
+               [] kd = "type"  -> \E i \in {PickS(Later(2), 7)}, t \in {PickS(Types, 8)} : SetType(i, t)
+               [] kd = "fcard" -> \E i \in {PickS(Later(3), 9)}, c \in {PickS(FCards, 10)} : SetFCard(i, c)
+               [] kd = "attr"  -> \E c \in {PickS(AttrCodes, 11)}, v \in {PickS(AttrVals, 13)} : AddAttribute(c[1], c[2], v)
+               [] kd = "ctc"   -> \E t \in {PickS(TreesOver(Names(model), CtcBinOps, CtcDepth)
+                                            \cup (IF CtcArith THEN ArithTrees(Names(model)) ELSE {}), 14)} : AddConstraint(t)
+
+Next == (IF Walks = 0 THEN Step ELSE RandomStep) /\ UNCHANGED walk
+
 Spec == Init /\ [][Next]_vars
 
 LevelBound == TLCGet("level") <= MaxLevel
@@ -98,6 +139,9 @@ LevelBound == TLCGet("level") <= MaxLevel
 ---------------------------------------------------------------------------
 (* Case emission: one JSON line per distinct state (generator runs only)   *)
 Emit == (Fmt = "" \/ InFrag(Fmt, model)) => PrintT(ToJson([hist |-> hist, model |-> model]))
+
+\* under -simulate every sibling successor is evaluated: print only the states at the final level
+EmitSim == Emit
 
 ---------------------------------------------------------------------------
 (* Design-level invariants and the oracle lemmas (DESIGN 3.4).  A violated *)
